@@ -21,13 +21,28 @@ class IE(enum.IntEnum):
     P = 1
 class K:
     attr = 1
+import collections
+NTup = collections.namedtuple("NTup", ["p", "q"])
+nt = NTup(1, 2)
+class GBase:
+    def __getattr__(self, name):
+        return 1
+class GSub(GBase):
+    y = 2
+class Ann:
+    z: int
+class IF(enum.IntFlag):
+    R = 1
+    W = 2
 '''
 
 OPERANDS = {
-    "quick": ["None", "True", "0", "1", "2", "-1", "1.5", '"a"', '""', 'b"a"', '(1, "a")', "()", "E.X", "IE.P", "os", "int"],
+    "quick": ["None", "True", "0", "1", "2", "-1", "1.5", '"a"', '""', 'b"a"', '(1, "a")', "()", "E.X", "IE.P", "os", "int",
+              # a tuple subclass instance, a class whose base defines an instance-level __getattr__, a class with an annotation-only attribute, an IntFlag member, an Enum class
+              "nt", "GSub", "Ann", "IF.R", "E"],
     "thorough": ["None", "True", "False", "0", "1", "2", "3", "-1", "-2", "8", "1.5", "0.0", "-2.5", "1j", '"a"', '""', '"ab"', '"%s"', 'b"a"', 'b""',
                  '(1, "a")', "()", "(1,)", "(1, 2, 3)", '("a", "b")', "((1,),)", "E.X", "E.Y", "IE.P", "os", "enum", "int", "str", "K", "E", "tuple",
-                 "-0.0", '"é"', 'b"\\xff"', "(None,)"],
+                 "-0.0", '"é"', 'b"\\xff"', "(None,)", "nt", "GSub", "Ann", "IF.R", "IF.R | IF.W"],
 }
 BINOPS = ["+", "-", "*", "/", "//", "%", "**", "<<", ">>", "|", "^", "&", "@", "==", "!=", "in", "not in"]
 UNOPS = ["-", "+", "~", "not "]
@@ -72,7 +87,7 @@ def _attr_names(obj):
     names = [n for n in dir(obj) if not n.startswith("_")][:5]
     names += ["__class__", "__doc__"]
     real = list(dict.fromkeys(names))
-    fake = ["nope", "reel", "__nope__"]
+    fake = ["nope", "reel", "__nope__", "name", "value", "z", "y", "count"]
     if real and len(real[0]) > 2:
         fake.append(real[0][:-2] + real[0][-1] + real[0][-2])   # transposed spelling, e.g. path -> paht
     return real + fake
